@@ -229,7 +229,7 @@ package badgerstore
 //@ # THE assumed fact about reflect: a value whose reflect type is the store's type implements the marshalling interface
 //@ # that the store's type was found to implement when it was set (SetType)
 //@ trusted func reflect.TypeOfChecked(v reflect.Value) (t reflect.Type)
-//@   ensures imp(same(t, rvt) && rvum, implements(rvof, "encoding.BinaryMarshaler"))
+//@   ensures !isNil(t) && imp(same(t, rvt) && rvum, implements(rvof, "encoding.BinaryMarshaler"))
 //@ trusted func reflect.InterfaceOfStoreType(v reflect.Value) (i interface{})
 //@   ensures !isNil(i) && implements(i, "encoding.BinaryUnmarshaler")
 //@ trusted func reflect.InterfaceNonNil(v reflect.Value) (i interface{})
